@@ -220,7 +220,7 @@ def run(ck: Check) -> int:
         # ---- systematic grid: every subset of the list-level flags x list shapes (only exclusions,
         # mixed, exclude=) x both modules — the two loops (translate / compile_pattern) must route alike
         import itertools as _it
-        shapes = [(['!*.txt'], None), (['-*.txt'], None), (['*', '!a*'], None), (['!a|!b'], None), (['*.txt'], ['a*']),
+        shapes = [(['a*'], None), (['*', '!A*'], None), (['*'], ['x*']), (['!*.txt'], None), (['-*.txt'], None), (['*', '!a*'], None), (['!a|!b'], None), (['*.txt'], ['a*']),
                   (['a*', 'b*'], ['*b']), (['!a*', '!*/'], None), (['**', '!**/'], None), (['*/'], None), (['a|b/'], None)]
         gnames = ['a', 'b', 'a.txt', 'ab', 'a/', 'a/b/', 'b.txt', '.a', 'sub/', 'x/y']
         for mod in (F, G):
@@ -231,7 +231,10 @@ def run(ck: Check) -> int:
             # of the bytes / Windows slot from the POSIX table, so `b'dir\\'` was accepted by the translated pair and rejected by the matcher);
             # the full subset grid for (Unix, str), subsets of at most two flags for the other three combinations
             wnames = gnames + ['a\\', 'a\\b\\', 'sub\\', 'x\\y', 'a\\b', 'dir\\']
-            for plat, isb in ((mod.FORCEUNIX, False), (mod.FORCEWIN, False), (mod.FORCEUNIX, True), (mod.FORCEWIN, True)):
+            # (… and with BOTH platform flags, which cancel out: added after seeded change C08i, where the rule moved from fnmatch's flag
+            # transform into _wcparse.compile(), so translate() stopped applying it while the matcher still did)
+            for plat, isb in ((mod.FORCEUNIX, False), (mod.FORCEWIN, False), (mod.FORCEUNIX, True), (mod.FORCEWIN, True),
+                              (mod.FORCEWIN | mod.FORCEUNIX, False), (mod.FORCEWIN | mod.FORCEUNIX, True), (0, False)):
                 cv = (lambda z: z.encode('latin-1')) if isb else (lambda z: z)
                 for r in range(len(lf) + 1 if (plat == mod.FORCEUNIX and not isb) else 3):
                     for sub in _it.combinations(lf, r):
@@ -250,7 +253,7 @@ def run(ck: Check) -> int:
                             except Exception as e:  # noqa: BLE001
                                 sr.histogram['grid-exc:' + type(e).__name__] = sr.histogram.get('grid-exc:' + type(e).__name__, 0) + 1
                                 continue
-                            for x in (wnames if plat == mod.FORCEWIN else gnames):
+                            for x in (wnames if plat == mod.FORCEWIN else gnames + ['A', 'AB', 'A.TXT', 'a\\', 'x\\y']):
                                 exp = any(c.fullmatch(cv(x)) for c in cp) and not any(c.fullmatch(cv(x)) for c in cn)
                                 if bool(mt.match(cv(x))) != exp:
                                     ck.report(Failing(f'{mod.__name__}: match({cv(x)!r}) = {bool(mt.match(cv(x)))} but the translate() regexes say {exp}',
